@@ -2,8 +2,8 @@
     Only property theorems here, each closed by a lemma of Proofs04*.v and followed by [Print Assumptions].
     Spec: Spec04.v ([Dec] = decoding of the whole byte string, [eol_norm] = XML line-end normalisation; neither
     mentions reads or buffers).  Model: Model04.v (XMLReader.cpp).  Contract on the transcoder: Contract04.v. *)
-From XV Require Import C04.Spec04 C04.Model04 C04.Contract04 C04.Proofs04a C04.Proofs04b C04.Proofs04c C04.Proofs04e
-                       C04.Inst04.
+From XV Require Import C04.Spec04 C04.Model04 C04.Contract04 C04.Proofs04a C04.Proofs04b C04.Proofs04c C04.Proofs04d C04.Proofs04e
+                       C04.Proofs04f C04.Inst04.
 From Coq Require Import Lia.
 Local Open Scope N_scope.
 
@@ -62,6 +62,47 @@ Proof.
   destruct Hr as [A [_ [_ [B [_ [C _]]]]]]. split; [exact A|]. split; [|exact B]. intros Hb. now destruct (C Hb).
 Qed.
 Print Assumptions T04_refresh_keeps_remaining.
+
+(** T04_tokens (partial: skippedChar, peekNextChar, skippedString, peekString; getNextChar is T04_chars; for getName,
+    getNextCharIfNot, skippedSpace and skipSpaces only safety and state preservation are proved -- C01/T01_reader_inv):
+    in every reachable state the answer of a token operation is a function of the remaining character sequence [cs]
+    alone -- not of the buffer contents, refill points or chunking -- and the state afterwards holds the specified rest *)
+Theorem T04_tokens_partial : forall step maxSeq c r cs st,
+  xcontract step (X c) maxSeq -> sizes_ok c maxSeq -> St step c r cs st -> (st = Clean \/ st = Truncated) ->
+  (forall ch, match skipped_char c r ch with
+              | Ok (r', b) => St step c r' (snd (spec_skipped_char ch cs)) st /\ b = fst (spec_skipped_char ch cs)
+              | Err _ => False end) /\
+  (match peek_next c r with Ok (r', o) => St step c r' cs st /\ o = spec_peek (nel c) cs | Err _ => False end) /\
+  (forall s, (length s + 1 <= cbsz c)%nat ->
+             match skipped_string c r s with
+             | Ok (r', b) => St step c r' (snd (spec_skipped_string s cs)) st /\ b = fst (spec_skipped_string s cs)
+             | Err _ => False end) /\
+  (forall s, (length s + 1 <= cbsz c)%nat ->
+             match peek_string c r s with Ok (r', b) => St step c r' cs st /\ b = is_prefix s cs | Err _ => False end).
+Proof.
+  intros step maxSeq c r cs st HC HS H Hnb. repeat split.
+  - intros ch. exact (skipped_char_spec step maxSeq c HC HS r cs st ch H Hnb).
+  - exact (peek_next_spec step maxSeq c HC HS r cs st H Hnb).
+  - intros s Hs. exact (skipped_string_spec step maxSeq c HC HS r cs st s H Hnb Hs).
+  - intros s Hs. exact (peek_string_spec step maxSeq c HC HS r cs st s H Hnb Hs).
+Qed.
+Print Assumptions T04_tokens_partial.
+
+(** every reachable state: the initial reader is in state [St] with the decoding of the whole input, and every
+    operation of the operation language keeps [St] (with fewer or equally many characters left) *)
+Theorem T04_ops_keep_state : forall step maxSeq c fuel r cs st o,
+  xcontract step (X c) maxSeq -> sizes_ok c maxSeq -> safename c = true -> St step c r cs st ->
+  (2 * length cs + 2 <= fuel)%nat ->
+  match do_op c fuel r o with
+  | Err Fault | Err FuelOut => False
+  | Err (XErr e) => st = Bad e
+  | Ok (r', _) => exists cs', St step c r' cs' st /\ (length cs' <= length cs)%nat
+  end.
+Proof.
+  intros step maxSeq c fuel r cs st o HC HS Hsafe H Hf.
+  exact (do_op_safe step maxSeq c HC HS Hsafe fuel r cs st o H Hf).
+Qed.
+Print Assumptions T04_ops_keep_state.
 
 (** the specification is total and deterministic: every byte string has exactly one decoding *)
 Theorem T04_spec_total : forall step X maxSeq s, xcontract step X maxSeq -> exists cs st, Dec step s cs st.
